@@ -349,6 +349,48 @@ def search_pairs(job):
     return {"failures": out, "tried": tried}
 
 
+NESTED_INNER = [
+    ({"anyOf": [{"type": "string"}, {"minimum": 3}]}, 1),
+    ({"oneOf": [{"type": "integer"}, {"minimum": 0}]}, 1),
+    ({"anyOf": [{"type": "string"}, {"properties": {"k": {"anyOf": [{"type": "null"}, {"items": [{}, {"type": "string"}]}]}}}]}, {"k": [0, 1]}),
+    ({"allOf": [{"anyOf": [{"type": "string"}, {"type": "null"}]}]}, 1),
+    ({"type": "string"}, 1),
+]
+
+
+def search_nested(job):
+    """deeply nested applicators with pairwise distinct path elements (C06: absolute paths are the
+    parents' paths in order, json_path renders them)"""
+    root = job["root"]
+    jsonschema, validators = _load(root)
+    from spec import drafts
+    from spec.pyops import PyOps
+    out, tried = [], 0
+    for d in job.get("drafts", (3, 4, 6, 7)):
+        cls = classes(validators)[d]
+        meta = json.load(open(root + "/jsonschema/schemas/draft%d.json" % d))
+        for inner, x in NESTED_INNER:
+            wraps = [
+                ({"properties": {"a": {"items": inner}}}, {"a": [x]}),
+                ({"properties": {"a": {"items": [{}, {"properties": {"b": inner}}]}}}, {"a": [0, {"b": x}]}),
+                ({"items": [{}, {}, {"properties": {"p": {"items": [{}, inner]}}}]}, [0, 0, {"p": [0, x]}]),
+                ({"patternProperties": {"^q": {"additionalProperties": {"items": [{}, {}, {}, inner]}}}}, {"qq": {"r": [0, 0, 0, x]}}),
+                ({"anyOf": [{"type": "null"}, {"properties": {"a": {"items": [{}, inner]}}}]}, {"a": [0, x]}),
+            ]
+            if d != 3:
+                wraps.append(({"allOf": [{"properties": {"a": {"anyOf": [{"type": "null"}, {"items": [{}, {}, inner]}]}}}]}, {"a": [0, 0, x]}))
+            for schema, inst in wraps:
+                if not wf(d, schema, drafts, PyOps, meta):
+                    continue
+                tried += 1
+                f = judge_errors(d, cls, schema, inst, validators, drafts, PyOps, meta)
+                if f is not None:
+                    out.append(f)
+                    if len(out) >= job.get("limit", 3):
+                        return {"failures": out, "tried": tried}
+    return {"failures": out, "tried": tried}
+
+
 def search_meta(job):
     """C11: check_schema(candidate) returns normally exactly when the executable spec accepts the
     candidate under the bundled metaschema; otherwise SchemaError and nothing else."""
@@ -467,7 +509,7 @@ def replay(job):
 
 def main():
     job = json.load(sys.stdin)
-    res = {"search": search, "replay": replay, "search_pairs": search_pairs, "search_meta": search_meta, "suite_sanity": suite_sanity}[job["cmd"]](job)
+    res = {"search": search, "replay": replay, "search_pairs": search_pairs, "search_nested": search_nested, "search_meta": search_meta, "suite_sanity": suite_sanity}[job["cmd"]](job)
     json.dump(res, sys.stdout)
 
 
